@@ -50,6 +50,41 @@ mod proofs {
     shape!(limit2_one_row_asc, CmpLessThan, 2, 1);
     shape!(limit2_four_rows_asc, CmpLessThan, 2, 4);
     shape!(limit2_three_rows_desc, CmpGreaterThan, 2, 3);
+    shape!(limit3_four_rows_asc, CmpLessThan, 3, 4);
+    shape!(limit1_four_rows_desc, CmpGreaterThan, 1, 4);
+    // two batches (streaming): the second batch continues the row numbering of the first
+    fn run2<C: Comparator<i64>>(n: usize, len1: usize, len2: usize) {
+        let vals: [i8; ROWS] = kani::any();
+        let all: Vec<i64> = vec![vals[0] as i64, vals[1] as i64, vals[2] as i64, vals[3] as i64];
+        let input_cell = RefCell::new(all.clone());
+        let indices_cell: RefCell<Vec<usize>> = RefCell::new(Vec::with_capacity(n));
+        let keys_cell: RefCell<Vec<i64>> = RefCell::new(Vec::with_capacity(n));
+        kani::assume(indices_cell.borrow().capacity() == n && keys_cell.borrow().capacity() == n);
+        let mut this = TopNState { n, last_index: 0 };
+        let r1 = top_n_execute::<C>(&mut this, Ref::map(input_cell.borrow(), |v| &v[..len1]), indices_cell.borrow_mut(), keys_cell.borrow_mut());
+        let r2 = top_n_execute::<C>(&mut this, Ref::map(input_cell.borrow(), |v| &v[len1..len1 + len2]), indices_cell.borrow_mut(), keys_cell.borrow_mut());
+        assert!(r1.is_ok() && r2.is_ok(), "[ok] a batch is always accepted");
+        let len = len1 + len2;
+        let keys = keys_cell.borrow();
+        let indices = indices_cell.borrow();
+        let kept = if n < len { n } else { len };
+        assert!(keys.len() == kept && indices.len() == kept && this.last_index == len, "[keeps-min-n-rows] exactly min(n, rows) rows are kept and every row is counted");
+        for j in 0..kept {
+            assert!(indices[j] < len && all[indices[j]] == keys[j], "[key-of-its-row] every kept key is the key of the row recorded next to it");
+            for k in 0..kept { assert!(j == k || indices[j] != indices[k], "[rows-distinct] no row is kept twice"); }
+        }
+        for p in 0..len {
+            let mut is_kept = false;
+            for j in 0..kept { if indices[j] == p { is_kept = true; } }
+            if !is_kept { for j in 0..kept { assert!(!C::cmp(all[p], keys[j]), "[dropped-not-better] a row that is dropped does not sort strictly before a row that is kept"); } }
+        }
+    }
+    #[kani::proof]
+    #[kani::unwind(7)]
+    fn two_batches_fill_in_second_asc() { run2::<CmpLessThan>(2, 1, 3); }
+    #[kani::proof]
+    #[kani::unwind(7)]
+    fn two_batches_full_after_first_desc() { run2::<CmpGreaterThan>(2, 2, 2); }
     #[kani::proof]
     fn vx_canary() {
         let x: u8 = kani::any();
